@@ -89,7 +89,17 @@ type pxCache struct {
 }
 
 // pxStep is one request of a history (and what the backend would answer to it).
+// pxReload is an in-place update of the HTTPServer spec between two requests of a history (mux.reload): new
+// path-level / server-level clientMaxBodySize and the number of extra, never matching paths in the rule list (the
+// rules change iff that number differs from the one in force; ipFilter / cacheSize never change).
+type pxReload struct {
+	PathMax   int64 `json:"pathMax"`
+	ServerMax int64 `json:"serverMax"`
+	Rules     int   `json:"rules"`
+}
+
 type pxStep struct {
+	Reload  *pxReload   `json:"reload"`
 	Method  string      `json:"method"`
 	Path    string      `json:"path"`
 	Query   string      `json:"query"`
@@ -354,6 +364,7 @@ type pxEnv struct {
 	mback    *httptest.Server
 	mhits    int
 	mseen    *pxSeenReq
+	alt      http.HandlerFunc // when set, the backend is this handler (concurrency harness)
 	caseID   int // stamped on every client request (X-Verif-Case) so that a late mirror request of an earlier case is not attributed to this one
 	front    *httptest.Server
 	handler  http.Handler
@@ -442,6 +453,13 @@ func (e *pxEnv) serveMirror(w http.ResponseWriter, r *http.Request) {
 const pxPreBody = "fail"
 
 func (e *pxEnv) serveBackend(w http.ResponseWriter, r *http.Request) {
+	e.mu.Lock()
+	alt := e.alt
+	e.mu.Unlock()
+	if alt != nil {
+		alt(w, r)
+		return
+	}
 	seen := pxRecord(r)
 	e.mu.Lock()
 	k := e.hits
@@ -618,6 +636,7 @@ func (e *pxEnv) mirrorURL(m *pxMirror) (string, string) {
 type pxSUT struct {
 	pl *pipeline.Pipeline
 	m  *mux
+	mm context.MuxMapper
 }
 
 func (e *pxEnv) build(cfg pxCfg) (sut *pxSUT, err error) {
@@ -690,15 +709,39 @@ func (e *pxEnv) build(cfg pxCfg) (sut *pxSUT, err error) {
 
 	mm := &contexttest.MockedMuxMapper{MockedGetHandler: func(name string) (context.Handler, bool) { return pl, true }}
 	m := newMux(httpstat.New(), httpstat.NewTopN(10), mm)
-	hsYAML := fmt.Sprintf("kind: HTTPServer\nname: front\nport: 8080\nkeepAlive: true\nhttps: false\nclientMaxBodySize: %d\nrules:\n- paths:\n  - pathPrefix: /\n    backend: pl\n    clientMaxBodySize: %d\n",
-		cfg.ServerMax, cfg.PathMax)
-	hsSpec, err := supervisor.NewSpec(hsYAML)
+	hsSpec, err := pxServerSpec(cfg.ServerMax, cfg.PathMax, 0)
 	if err != nil {
 		pl.Close()
-		return nil, fmt.Errorf("httpserver spec: %v", err)
+		return nil, err
 	}
 	m.reload(hsSpec, mm)
-	return &pxSUT{pl: pl, m: m}, nil
+	return &pxSUT{pl: pl, m: m, mm: mm}, nil
+}
+
+// pxServerSpec is the HTTPServer spec of the environment: one catch-all path (with its own limit) in front of
+// `extra` never-matching exact paths.
+func pxServerSpec(serverMax, pathMax int64, extra int) (*supervisor.Spec, error) {
+	var sb strings.Builder
+	fmt.Fprintf(&sb, "kind: HTTPServer\nname: front\nport: 8080\nkeepAlive: true\nhttps: false\nclientMaxBodySize: %d\nrules:\n- paths:\n  - pathPrefix: /\n    backend: pl\n    clientMaxBodySize: %d\n",
+		serverMax, pathMax)
+	for i := 0; i < extra && i < 8; i++ {
+		fmt.Fprintf(&sb, "  - path: /never-%d\n    backend: pl\n", i)
+	}
+	spec, err := supervisor.NewSpec(sb.String())
+	if err != nil {
+		return nil, fmt.Errorf("httpserver spec: %v", err)
+	}
+	return spec, nil
+}
+
+// reload updates the HTTPServer spec in place, as the supervisor does for a changed object.
+func (s *pxSUT) reload(r *pxReload) error {
+	spec, err := pxServerSpec(r.ServerMax, r.PathMax, r.Rules)
+	if err != nil {
+		return err
+	}
+	s.m.reload(spec, s.mm)
+	return nil
 }
 
 func (s *pxSUT) close() {
@@ -1053,6 +1096,14 @@ func pxRunHistory(sc *pxScenario) *pxHistObs {
 	}
 	for i := range sc.Steps {
 		st := sc.Steps[i]
+		if st.Reload != nil { // an update between two requests; its observation slot only says so
+			o := &pxObs{}
+			if err := sut.reload(st.Reload); err != nil {
+				o.Err = err.Error()
+			}
+			out.Steps = append(out.Steps, o)
+			continue
+		}
 		one := pxScenario{Method: st.Method, Path: st.Path, Query: st.Query, Host: st.Host, Hdrs: st.Hdrs, Body: st.Body,
 			Cfg: sc.Cfg, Backend: st.Backend}
 		out.Steps = append(out.Steps, e.runOn(sut, &one))
